@@ -226,7 +226,7 @@ fn diagnose(scn: &Scn, o: &Outcome, errors: &[(String, String)], v: &mut Verdict
                     format!("{}-read", x.rev().as_str()),
                 ];
                 let only_own_timeouts = errors.iter().all(|(op, e)| own.contains(op) && e.starts_with("TimedOut"));
-                if only_own_timeouts && o.diag.fin_ack_lost_for_good(x, scn.cfg.retx_max) {
+                if only_own_timeouts && o.diag.fin_ack_lost_for_good(x, scn.cfg.retx_max, scn.cfg.retx_threshold) {
                     c.kind = "closed-peer-ignores-fin".into();
                     c.diagnosed = true;
                     c.detail = format!(
